@@ -1,6 +1,7 @@
 package main
 
 import (
+	"sort"
 	"fmt"
 	"go/token"
 	"go/types"
@@ -85,39 +86,79 @@ func c10R1(c *Ctx, rule string) {
 	if arl == nil || hs == nil || bch == nil {
 		return
 	}
-	// template of AddRecordLayer
-	want := map[int64]string{0: "typ", 1: "(ver >> 8)", 2: "ver", 3: "(builtin.len(input) >> 8)", 4: "builtin.len(input)"}
-	got := map[int64]string{}
-	copyAt := int64(-1)
-	retLenOK := false
-	allInstrs(arl, func(i ssa.Instruction) {
-		switch x := i.(type) {
-		case *ssa.Store:
-			if ia, ok := x.Addr.(*ssa.IndexAddr); ok {
-				if k, isK := intConst(ia.Index); isK {
-					got[k] = Expr(x.Val)
+	// template of AddRecordLayer, structurally: byte 0 = the type parameter, bytes 1..2 = the version parameter big-endian,
+	// bytes 3..4 = len(input) big-endian (manual shifts or encoding/binary), the body copied at offset 5, len = len(input)+5
+	{
+		in, typ, ver := ssa.Value(arl.Params[0]), ssa.Value(arl.Params[1]), ssa.Value(arl.Params[2])
+		roleOf := func(v ssa.Value) string {
+			v = stripConv(v)
+			switch {
+			case v == typ:
+				return "type"
+			case v == ver:
+				return "version"
+			}
+			if lc, ok := v.(*ssa.Call); ok && calleeName(&lc.Call) == "builtin.len" && lc.Call.Args[0] == in {
+				return "len(input)"
+			}
+			if bo, ok := v.(*ssa.BinOp); ok {
+				return Expr(bo)
+			}
+			return Expr(v)
+		}
+		var bstores []byteStore
+		var entries []layoutEntry
+		copyAt := int64(-1)
+		retLenOK := false
+		allInstrs(arl, func(i ssa.Instruction) {
+			switch x := i.(type) {
+			case *ssa.Store:
+				if ia, ok := x.Addr.(*ssa.IndexAddr); ok {
+					if k, isK := intConst(ia.Index); isK {
+						bstores = append(bstores, byteStore{k, x.Val, i})
+					}
+				}
+			case *ssa.Call:
+				n := calleeName(&x.Call)
+				if n == "builtin.copy" && x.Call.Args[1] == in {
+					if sl, ok := x.Call.Args[0].(*ssa.Slice); ok && sl.Low != nil && sl.High == nil {
+						copyAt, _ = intConst(sl.Low)
+					}
+				}
+				if strings.Contains(n, "bigEndian).PutUint16") {
+					args := x.Call.Args
+					if sl, ok := args[len(args)-2].(*ssa.Slice); ok && sl.Low != nil && sl.High != nil {
+						lo, okL := intConst(sl.Low)
+						hi, okH := intConst(sl.High)
+						if okL && okH && hi-lo == 2 {
+							entries = append(entries, layoutEntry{lo, hi, "BE16", roleOf(args[len(args)-1]), i})
+						}
+					}
+				}
+			case *ssa.MakeSlice:
+				b := &Bounds{}
+				up, ok1 := b.Upper(x.Len)
+				lo, ok2 := b.Lower(x.Len)
+				if ok1 && ok2 && up.C == 5 && lo.C == 5 && len(up.Terms) == 1 && len(lo.Terms) == 1 {
+					for s, k := range up.Terms {
+						if lc, ok := s.(*ssa.Call); ok && k == 1 && calleeName(&lc.Call) == "builtin.len" && lc.Call.Args[0] == in {
+							retLenOK = true
+						}
+					}
 				}
 			}
-		case *ssa.Call:
-			if calleeName(&x.Call) == "builtin.copy" && x.Call.Args[1] == ssa.Value(arl.Params[0]) {
-				if sl, ok := x.Call.Args[0].(*ssa.Slice); ok && sl.Low != nil && sl.High == nil {
-					copyAt, _ = intConst(sl.Low)
-				}
-			}
-		case *ssa.MakeSlice:
-			e := Expr(x.Len)
-			if strings.Contains(e, "len(input)") && strings.Contains(e, "5") {
-				retLenOK = true
-			}
+		})
+		fields, rest := groupBigEndian(bstores, roleOf)
+		entries = append(entries, fields...)
+		for _, s := range rest {
+			entries = append(entries, layoutEntry{s.off, s.off + 1, "byte", roleOf(s.val), s.at})
 		}
-	})
-	okT := copyAt == 5 && retLenOK
-	for k, w := range want {
-		if got[k] != w {
-			okT = false
-		}
+		sort.Slice(entries, func(i, j int) bool { return entries[i].lo < entries[j].lo })
+		got := layoutString(entries)
+		want := "[0:1] byte type, [1:3] BE16 version, [3:5] BE16 len(input)"
+		c.Check(got == want && copyAt == 5 && retLenOK, rule, "AddRecordLayer template", c.atFn(arl), "ret = typ ‖ BE16(ver) ‖ BE16(len) ‖ input",
+			fmt.Sprintf("record wrapper writes {%s}, body at %d, length len(input)+5=%v: not type ‖ version ‖ big-endian length ‖ body", got, copyAt, retLenOK))
 	}
-	c.Check(okT, rule, "AddRecordLayer template", c.atFn(arl), "ret = typ ‖ ver>>8 ‖ ver ‖ len>>8 ‖ len ‖ input", fmt.Sprintf("record wrapper writes %v, body at %d: not type ‖ version ‖ big-endian length ‖ body", got, copyAt))
 	// call site
 	var arlCall, write, wrap ssa.Instruction
 	allInstrs(hs, func(i ssa.Instruction) {
